@@ -100,7 +100,7 @@ func main() {
 	// pass A: functions of this module started with `go`
 	goStarted := map[types.Object]bool{}
 	for _, p := range pkgs {
-		if strings.HasPrefix(p.PkgPath, simrtPkg) || strings.Contains(p.PkgPath, "/internal/sim") {
+		if isOverlayPkg(p.PkgPath) {
 			continue
 		}
 		for _, f := range p.Syntax {
@@ -120,7 +120,7 @@ func main() {
 
 	// pass B: rewrite
 	for _, p := range pkgs {
-		if strings.HasPrefix(p.PkgPath, simrtPkg) || strings.Contains(p.PkgPath, "/internal/sim") {
+		if isOverlayPkg(p.PkgPath) {
 			continue
 		}
 		inv.Packages = append(inv.Packages, p.PkgPath)
@@ -165,6 +165,16 @@ func main() {
 	}
 	fmt.Printf("simgen: %d packages, %d map sites, %d maps.Keys sites, %d yield sites, %d go-start sites, %d mutex sites, %d files rewritten\n",
 		len(inv.Packages), len(inv.MapSites), len(inv.KeysSites), len(inv.YieldSites), len(inv.GoStarts), len(inv.MutexSites), len(inv.FilesChanged))
+}
+
+// isOverlayPkg: packages /verif itself adds to the copy are not instrumented.
+func isOverlayPkg(path string) bool {
+	for _, n := range []string{"simrt", "simh", "spatialstub", "gpkgh"} {
+		if path == inv.Module+"/internal/"+n {
+			return true
+		}
+	}
+	return false
 }
 
 func rel(fn string) string {
@@ -362,7 +372,40 @@ func (r *rewriter) callOp(call *ast.CallExpr) string {
 			return "io:gpkg." + fn.Name()
 		}
 	}
+	// a function value handed to code outside the module (errgroup.Go, time.AfterFunc,
+	// sync.Once.Do, a worker pool): it may be started as a goroutine there, so the call is
+	// treated like a `go` statement — at most one such spawn per scheduling step
+	if !strings.HasPrefix(pkg, inv.Module) && r.hasFuncArg(call) {
+		if recvName != "" {
+			return "spawn?:" + recvName + "." + fn.Name()
+		}
+		return "spawn?:" + fn.Pkg().Name() + "." + fn.Name()
+	}
 	return ""
+}
+
+var noSpawnPkgs = map[string]bool{"sort": true, "slices": true, "strings": true, "bytes": true, "fmt": true, "golang.org/x/exp/slices": true,
+	"golang.org/x/exp/maps": true, "maps": true, "testing": true, "flag": true, "regexp": true, "text/template": true}
+
+func (r *rewriter) hasFuncArg(call *ast.CallExpr) bool {
+	if fn, ok := calleeObj(r.info, call).(*types.Func); ok && fn.Pkg() != nil {
+		p := fn.Pkg().Path()
+		if noSpawnPkgs[p] || strings.HasPrefix(p, "github.com/tobshub/go-sortedmap") || strings.HasPrefix(p, "github.com/wk8/go-ordered-map") ||
+			strings.HasPrefix(p, "github.com/urfave/cli") || strings.HasPrefix(p, "github.com/stretchr/testify") {
+			return false
+		}
+	}
+	for _, a := range call.Args {
+		if _, ok := ast.Unparen(a).(*ast.FuncLit); ok {
+			return true
+		}
+		if t := r.info.TypeOf(a); t != nil {
+			if _, ok := t.Underlying().(*types.Signature); ok {
+				return true
+			}
+		}
+	}
+	return false
 }
 
 // shallowOp finds the first scheduling point among the expressions that belong to the
@@ -497,6 +540,16 @@ func (r *rewriter) pre(c *astutil.Cursor) bool {
 		}
 	case *ast.CallExpr:
 		r.rewriteCall(c, n)
+		if op := r.callOp(n); strings.HasPrefix(op, "spawn?:") {
+			for _, a := range n.Args {
+				if fl, ok := ast.Unparen(a).(*ast.FuncLit); ok && !(len(fl.Body.List) > 0 && isSimrtStmt(fl.Body.List[0])) {
+					s := r.site(fl.Body.Lbrace, "gostart?")
+					fl.Body.List = append([]ast.Stmt{yieldStmt(s)}, fl.Body.List...)
+					inv.GoStarts = append(inv.GoStarts, s)
+					r.changed = true
+				}
+			}
+		}
 	}
 	// T2: statements that sit in a statement list
 	if st, ok := n.(ast.Stmt); ok && c.Index() >= 0 {
